@@ -66,13 +66,65 @@ class FixedTokenizer:
 		return list(self.tokens)
 
 
+class BudgetExceeded(Exception):
+	"""A call into the code under test did not return within its wall budget."""
+
+
+class budget:
+	"""`with budget(seconds):` — hard wall cap on a call into the real code (signal.setitimer; main thread only). A call that runs
+	over raises BudgetExceeded, which the callers turn into an outcome / finding `budget-exceeded` (a loop that no longer ends,
+	an exponential blow-up) instead of a check that never returns."""
+
+	def __init__(self, seconds: float) -> None:
+		self.seconds = seconds
+
+	def _fire(self, *a: Any) -> None:
+		raise BudgetExceeded(f'no result within {self.seconds} s')
+
+	def __enter__(self) -> 'budget':
+		import signal
+		self._old = signal.signal(signal.SIGALRM, self._fire)
+		signal.setitimer(signal.ITIMER_REAL, self.seconds)
+		return self
+
+	def __exit__(self, *a: Any) -> None:
+		import signal
+		signal.setitimer(signal.ITIMER_REAL, 0)
+		signal.signal(signal.SIGALRM, self._old)
+
+
+CALL_BUDGET_S = 8.0
+
+
+class Deadline:
+	"""Total wall budget of one stream / search: loops stop generating when it is over and report what they have."""
+
+	def __init__(self, seconds: float) -> None:
+		import time
+		self.end = time.time() + seconds
+		self.seconds = seconds
+
+	def expired(self) -> bool:
+		import time
+		return time.time() > self.end
+
+
+def real_tokens(tokenizer: Any, source: str) -> list[Any]:
+	"""tokenizer.parse under the call budget"""
+	with budget(CALL_BUDGET_S):
+		return tokenizer.parse(source)
+
+
 def real_parse(rules: Any, tokenizer: Any, source: str, entry: str = 'entry') -> tuple[str, Any]:
 	"""('ok', tuple tree) | ('Errors.Syntax', message) | (enum, None)."""
 	from rogw.tranp.errors import Errors
 	from rogw.tranp.implements.syntax.tranp.syntax import SyntaxParser
 	try:
-		tree = SyntaxParser(rules, tokenizer).parse(source, entry)
-		return 'ok', tree.simplify()
+		with budget(CALL_BUDGET_S):
+			tree = SyntaxParser(rules, tokenizer).parse(source, entry)
+			return 'ok', tree.simplify()
+	except BudgetExceeded:
+		return 'budget-exceeded', None
 	except Errors.Syntax as e:
 		return 'Errors.Syntax', str(e)
 	except Exception as e:  # noqa: BLE001
@@ -434,7 +486,7 @@ def _wordlike(s: str) -> bool:
 	return bool(re.fullmatch(r'[\w.]+|\'.*\'|".*"', s, flags=re.S))
 
 
-def render_tokens(tokens: list[str], rng: random.Random | None = None, tight: float = 0.0) -> str:
+def render_tokens(tokens: list[str], rng: random.Random | None = None, tight: float = 0.0, indent: str = '\t') -> str:
 	"""Token strings (incl. "\\n", \\INDENT, \\DEDENT, \\OP_UNARY_MINUS) -> source text. Blocks are indented with tabs."""
 	out: list[str] = []
 	level = 0
@@ -456,7 +508,7 @@ def render_tokens(tokens: list[str], rng: random.Random | None = None, tight: fl
 			continue
 		text = '-' if t == '\\OP_UNARY_MINUS' else t
 		if at_line_start:
-			out.append('\t' * level)
+			out.append(indent * level)
 			at_line_start = False
 		elif glue_next:
 			pass
